@@ -6,8 +6,10 @@ package stun
 import (
 	"errors"
 	"net"
+	"net/netip"
 	"net/url"
 	"strconv"
+	"strings"
 )
 
 var (
@@ -170,6 +172,14 @@ func ParseURI(raw string) (*URI, error) { //nolint:gocognit,cyclop
 
 	if uri.Host == "" {
 		return nil, ErrHost
+	}
+	// RFC 7064/7065: a bracketed host is an IP literal. Anything else in
+	// brackets (e.g. "stun:[/a]") used to be accepted as a host name that
+	// String() cannot format back into a parsable URI.
+	if strings.HasPrefix(rawParts.Opaque, "[") {
+		if _, ipErr := netip.ParseAddr(uri.Host); ipErr != nil {
+			return nil, ErrHost
+		}
 	}
 
 	if uri.Port, err = strconv.Atoi(rawPort); err != nil || uri.Port < 0 || uri.Port > 65535 {
